@@ -97,6 +97,64 @@ def _index_map(prog, fi, se, x):
     return None
 
 
+def _index_map_lam(prog, fi, se, x):
+    """the same facts for ANY spelling of the index vector (outer sums, broadcasting, reshape / ravel ...), from the index-level model
+    (sa/lamdom.py): the vector must be the row-major walk of a (block, channel) grid with entry  block * W + channel"""
+    from .. import lamdom
+    from ..seqdom import psubs
+    import copy as _copy
+    # extents of arrays (`X.shape[k]`, `len(X)`) are scalars of this analysis: replaced by symbols, evaluated by the polynomial evaluator
+    shp_env = {}
+
+    class _Sh(ast.NodeTransformer):
+        def visit_Subscript(self_, node):
+            if isinstance(node.value, ast.Attribute) and node.value.attr == "shape" and isinstance(node.slice, ast.Constant):
+                v_ = se.ev(node)
+                if v_ is not None:
+                    nm_ = f"shp{len(shp_env)}_"
+                    shp_env[nm_] = v_
+                    return ast.Name(id=nm_, ctx=ast.Load())
+            return self_.generic_visit(node)
+    x_orig = x
+    x = _Sh().visit(_copy.deepcopy(x))
+    it = lamdom.Interp(prog, fi)
+    for nm in {n.id for n in ast.walk(x) if isinstance(n, ast.Name)}:
+        if nm not in ("np", "numpy"):
+            it.env[nm] = lamdom.scal(ast.Name(id=nm, ctx=ast.Load()))
+    # names that are subscripted (n_mov[kk]) are scalars once indexed
+    for sub in ast.walk(x):
+        if isinstance(sub, ast.Subscript) and isinstance(sub.value, ast.Name) and sub.value.id in it.env:
+            it.env[sub.value.id] = lamdom.Tab(sub.value.id, 1)
+    v = it.ev(x)
+    v = it.as_lam(v) if v is not None else None
+    if v is None or len(v.dims) != 1 or not v.dims[0].parts or len(v.dims[0].parts) != 2:
+        return None
+    parts = v.dims[0].parts
+    if any(p_.var is None or p_.parts or p_.filt or p_.extent is None for p_ in parts):
+        return None
+    se2 = symidx.SymEval(prog, fi, env=shp_env, stop=set(se.stop))
+    poly = se2.ev(v.body)
+    exts = [se2.ev(p_.extent) for p_ in parts]
+    if poly is None or any(e_ is None for e_ in exts):
+        return None
+    coef = []
+    for p_ in parts:
+        d = psubs(poly, p_.var, P.s(p_.var) + 1) - poly
+        if any(q_.var in repr(d) for q_ in parts):
+            return None         # not affine in the grid indices
+        coef.append(d)
+    base = poly
+    for p_ in parts:
+        base = psubs(base, p_.var, P.c(0))
+    chan = [k for k, c_ in enumerate(coef) if c_ == P.c(1)]
+    if len(chan) != 1:
+        return None
+    ck = chan[0]
+    bk = 1 - ck
+    # block-major walk (block index outer) is what flatten(order='F') of the [channel][block] table gives
+    return {"NB": exts[bk], "W": coef[bk], "a": base, "b": base + exts[ck], "order": "F" if bk == 0 else "C", "node": x_orig}
+
+
 KEEP = ("n_mov", "n_ref")
 
 
@@ -117,6 +175,11 @@ def interleave(prog, run):
         if isinstance(n, ast.Assign) and isinstance(n.value, ast.Subscript) and len(astq.index_elts(n.value)) == 2 and astq.is_full_slice(astq.index_elts(n.value)[1]):
             idx = astq.expr_at(fi, n, astq.index_elts(n.value)[0], keep=KEEP)
             m = _index_map(prog, fi, se, idx)
+            if m is None and not isinstance(idx, (ast.Slice, ast.Constant)):
+                try:
+                    m = _index_map_lam(prog, fi, se, idx)
+                except Exception:
+                    m = None
             if m is not None:
                 m["target"] = n.targets[0].id if isinstance(n.targets[0], ast.Name) else None
                 m["stmt"] = n
